@@ -212,7 +212,7 @@ def run(ctx):
             r = ctx.rng.fork()
             snap = corr.Snap(scratch, adv_tree(r, r.choice([0, 1, 3, 9])), subdir="t%d" % t, tz=r.choice(list(fstree.TZ_OFFSETS)))
             for _ in range(per_tree):
-                path = r.choice(["streamed", "ordered", "aggregate", "grouped"])
+                path = r.choice(["streamed", "ordered", "aggregate", "grouped", "grouped"])
                 ncols = r.range(1, 6)
                 cols = r.sample(COLS, min(ncols, len(COLS)))
                 if path == "aggregate":
@@ -230,7 +230,14 @@ def run(ctx):
                     base = "select %s from ." % ", ".join(sel)
                 if r.chance(1, 4) and path in ("streamed", "ordered"):
                     base += " limit %d" % r.range(1, 4)
+                elif path == "grouped" and r.chance(2, 3):
+                    # LIMIT over group rows (ordered by the key, so that both runs show the same groups): the cut table is
+                    # still one well-formed document
+                    base += " order by 1%s limit %d" % (r.choice(["", " desc"]), r.range(1, 4))
+                    ctx.count("grouped_limited")
                 fmt = r.choice(["json", "csv", "html", "tabs", "lines", "list"])
+                if " limit " in base and path == "grouped":
+                    fmt = r.choice(["json", "json", "json", "csv", "html", "tabs", "lines", "list"])   # the format with a row separator most often
                 q = base + " into " + fmt
                 ctx.case((t, q))
                 ctx.hist("format", fmt)
